@@ -48,10 +48,10 @@ def pair_case(mon, rng):
             th = float(rng.choice(THETAS))
             label, order = f"theta{th:g}", gen.make_order("theta", theta=th)
         else:
-            label, order = gen.random_order(rng, 2, families=["random", "orthant"])
+            label, order = gen.random_order(rng, 2, families=["random", "orthant"], rowscale_p=0.15)
     else:
         m = int(rng.choice([2, 3]))
-        label, order = gen.random_order(rng, m, families=["randomK", "icecream", "cone3d", "random"])
+        label, order = gen.random_order(rng, m, families=["randomK", "icecream", "cone3d", "random"], rowscale_p=0.15)
     W = order.ordering_cone.W
     two_by_two = W.shape == (2, 2)
     mode = str(rng.choice(["disjoint", "overlap", "overlap", "nested", "nested", "touching", "identical",
